@@ -324,9 +324,49 @@ class Gen:
             return self.group(depth, budget)
         return ("ch", self.lit_cp())
 
+    def flag_only(self):
+        """a flag-only group `(?ix-a)`: any on/off combination of the six flags"""
+        allowed = [I, M, S, U, A] + ([X] if self.allow_x_inline else [])
+        st = un = 0
+        for f in allowed:
+            k = self.rng.random()
+            if k < 0.25:
+                st |= f
+            elif k < 0.45:
+                un |= f
+        if not st and not un:
+            f = self.rng.choice([A, A, X if self.allow_x_inline else A, I, S])
+            if self.rng.random() < 0.6:
+                st = f
+            else:
+                un = f
+        return ("grp0", "", st, un, 0)
+
+    def sensitive(self):
+        """an atom whose meaning depends on the x / a / i / s flags in force"""
+        r = self.rng.random()
+        if r < 0.55:
+            return (self.rng.choice(["w", "d", "s", "h", "v", "W", "D", "S", "d", "w"]),)
+        if r < 0.75:
+            return ("ch", self.rng.choice([32, 32, 9, 0x2003]))
+        if r < 0.85:
+            return ("dot",)
+        return ("ch", self.rng.choice([ord("k"), ord("S"), ord("a")]))
+
+    def with_flag_only(self, inner):
+        """put a flag-only group in front of / inside the content of a group, followed by flag-sensitive atoms"""
+        els = list(inner[1]) if inner[0] == "cat" else [inner]
+        pos = self.rng.randint(0, len(els))
+        els[pos:pos] = [self.flag_only(), self.sensitive()]
+        if inner[0] == "or":
+            return ("or", self.with_flag_only(inner[1]), inner[2])
+        return ("cat", els) if len(els) != 1 else els[0]
+
     def group(self, depth, budget):
         r = self.rng.random()
         inner = self.union(depth + 1, budget - 1)
+        if self.rng.random() < 0.3:
+            inner = self.with_flag_only(inner)
         if r < 0.3:
             return ("grp", "", 0, 0, 0, inner)
         if r < 0.55:
@@ -373,11 +413,12 @@ class Gen:
         els = []
         for _ in range(n):
             if self.rng.random() < 0.06:
-                allowed = [I, M, S, U, A] + ([X] if self.allow_x_inline else [])
-                f = self.rng.choice(allowed)
-                els.append(("grp0", "", f, 0, 0) if self.rng.random() < 0.7 else ("grp0", "", 0, f, 0))
+                els.append(self.flag_only())
             else:
-                els.append(self.quantified(depth, budget // max(1, n)))
+                q = self.quantified(depth, budget // max(1, n))
+                els.append(q)
+                if q[0] == "grp" and self.rng.random() < 0.5:
+                    els.append(self.sensitive())
         if len(els) == 1:
             return els[0]
         return ("cat", els)
@@ -396,6 +437,28 @@ class Gen:
             if size(t) <= 25:
                 return t
         return ("ch", 97)
+
+
+def flag_scope_grid():
+    """Every group kind x a flag-only group inside it (each of the six flags switched on, and off) x a flag-sensitive atom
+    inside AND right after the closing parenthesis: the flag-only group's scope is the enclosing group."""
+    outers = [("", 0, 0, 0), ("", 0, 0, 1), ("nz", 0, 0, 0), ("", I, 0, 0), ("", M, 0, 0), ("", S, 0, 0), ("", U, 0, 0),
+              ("", I | S, M, 0), ("", X, 0, 0), ("", A, 0, 0), ("", 0, A, 0), ("", 0, X | I, 0)]
+    tails = [[("d",)], [("w",)], [("s",)], [("h",)], [("v",)], [("ch", 97), ("ch", 32), ("ch", 98)], [("ch", 107)], [("dot",)]]
+    out = []
+    for name, st, un, nc in outers:
+        for f in (I, M, S, U, X, A):
+            for on in (True, False):
+                g0 = ("grp0", "", f, 0, 0) if on else ("grp0", "", 0, f, 0)
+                for tail in tails:
+                    inner = ("cat", [g0] + tail)
+                    out.append(("cat", [("grp", name, st, un, nc, inner)] + tail))
+    # two levels: the flag-only group sits in a group inside the flag group
+    for f in (X, A, I):
+        for tail in tails[:6]:
+            deep = ("grp", "", 0, 0, 1, ("cat", [("grp0", "", f, 0, 0)] + tail))
+            out.append(("cat", [("grp", "", I, 0, 0, ("cat", [deep] + tail))] + tail))
+    return out
 
 
 def rune_of(n):
